@@ -108,6 +108,8 @@ type dtRun struct {
 	events []string
 	fail   string
 	anon   int
+	// fields written on this run into local records (struct literals): object.field -> value
+	fstore map[string]absVal
 }
 
 type dtFrame struct {
@@ -118,6 +120,15 @@ type dtFrame struct {
 }
 
 // DecisionTable enumerates the leaves of fn's decision tree. args are the abstract parameters.
+// dtAllocName: the abstract object of a local variable; a struct is qualified by its function because records are
+// handed from frame to frame (by value or by pointer) and read there field by field.
+func dtAllocName(a *ssa.Alloc) string {
+	if _, isStruct := a.Type().(*types.Pointer).Elem().Underlying().(*types.Struct); isStruct && a.Parent() != nil {
+		return "alloc:" + a.Parent().Name() + "#" + a.Name()
+	}
+	return "alloc:" + a.Name()
+}
+
 func (w *World) DecisionTable(fn *ssa.Function, args []absVal, spec *dtSpec) (leaves []dtLeaf, undecided []string) {
 	return w.decisionRegion(fn, args, spec, nil, nil)
 }
@@ -201,7 +212,7 @@ func (r *dtRun) call(fn *ssa.Function, args []absVal, depth int, start *ssa.Basi
 			if st, ok := ins.(*ssa.Store); ok {
 				if a, ok := st.Addr.(*ssa.Alloc); ok {
 					if p, ok := st.Val.(*ssa.Parameter); ok && paramIndex(p) < len(args) {
-						fr.mem["alloc:"+a.Name()] = args[paramIndex(p)]
+						fr.mem[dtAllocName(a)] = args[paramIndex(p)]
 					}
 				}
 			}
@@ -271,7 +282,15 @@ func (r *dtRun) call(fn *ssa.Function, args []absVal, depth int, start *ssa.Basi
 				return []absVal{{K: avUnknown, Tag: "panic"}}, "panic"
 			case *ssa.Store:
 				if a, ok := x.Addr.(*ssa.Alloc); ok {
-					fr.mem["alloc:"+a.Name()] = r.eval(fr, x.Val)
+					fr.mem[dtAllocName(a)] = r.eval(fr, x.Val)
+				} else if fa, ok := x.Addr.(*ssa.FieldAddr); ok {
+					// a field of a local record (struct literal)
+					if base := r.eval(fr, fa.X); base.K == avObject && strings.HasPrefix(base.Obj, "alloc:") && strings.Contains(base.Obj, "#") {
+						if r.fstore == nil {
+							r.fstore = map[string]absVal{}
+						}
+						r.fstore[base.Obj+"."+fieldName(fa.X.Type(), fa.Field)] = r.eval(fr, x.Val)
+					}
 				}
 			case ssa.Value:
 				fr.env[x] = r.evalInstr(fr, x, depth)
@@ -325,7 +344,7 @@ func (r *dtRun) eval(fr *dtFrame, v ssa.Value) absVal {
 		return absVal{K: avNonNil, Tag: "func:" + fnName(x)}
 	case *ssa.Alloc:
 		// a cell defined outside the interpreted region
-		return absVal{K: avObject, Obj: "alloc:" + x.Name()}
+		return absVal{K: avObject, Obj: dtAllocName(x)}
 	}
 	return absVal{}
 }
@@ -356,9 +375,15 @@ func (r *dtRun) evalInstr(fr *dtFrame, v ssa.Value, depth int) absVal {
 	case *ssa.Convert:
 		return r.eval(fr, x.X)
 	case *ssa.Alloc:
-		return absVal{K: avObject, Obj: "alloc:" + x.Name()}
+		return absVal{K: avObject, Obj: dtAllocName(x)}
 	case *ssa.FieldAddr:
 		base := r.eval(fr, x.X)
+		if a, isAlloc := x.X.(*ssa.Alloc); isAlloc {
+			// a local holding a whole copy of a record: the record itself
+			if v, ok := fr.mem[dtAllocName(a)]; ok && v.K == avObject && strings.Contains(v.Obj, "#") {
+				base = v
+			}
+		}
 		if base.K == avObject {
 			return absVal{K: avObject, Obj: base.Obj + "." + fieldName(x.X.Type(), x.Field), Tag: "addr"}
 		}
@@ -498,6 +523,9 @@ func zeroOf(t types.Type) absVal {
 }
 
 func (r *dtRun) fieldVal(obj, field string, t types.Type) absVal {
+	if v, ok := r.fstore[obj+"."+field]; ok {
+		return v
+	}
 	if r.spec.FieldAtom != nil {
 		if name := r.spec.FieldAtom(obj, field); name != "" {
 			return absVal{K: avAtom, Name: name}
